@@ -9,24 +9,49 @@ from harness import common as C
 THEOREMS = 'Properties/C13.v'
 TIME_LIMIT = {'quick': 900, 'thorough': 5400}
 CLAIM = dict(
-    text='TT-ANOVA. Coq theorems (all d, mode sizes, ranks) about the models Model/Anova.v and Model/AnovaFunc.v: '
-         'f0 is the sample mean and f1 the conditional means minus f0 (field, characteristic 0); pair_num_to_num '
-         'enumerates the pairs i<j<d bijectively in the loop order of build_2; the order-1 cores with noise 0 denote '
-         'f0 + sum_k f1[k][x_k] at every multi-index of the observed domain, have the observed mode sizes and every '
-         'TT-rank equal to r; an additive function sampled on a full grid is reproduced exactly; each pair tensor of '
-         '_second_order_2_tt denotes f2[x_i,x_j] given U V = A, and the order-2 result equals constant + univariate '
-         '+ pair terms plus the sum of the errors of the truncate calls (error accounting of truncate is C02: '
-         'partial); the coefficient tensor of anova_func before rounding is c0 at 0, cf_i[p] at (p+1) e_i and zero '
-         'elsewhere, hence its interpolant in any basis with B_0 = 1 is c0 + sum_i sum_p cf_i[p] B_{p+1}(x_i). '
-         'With noise > 0 the cores are exactly pattern + noise*g (stated); the tensor-level perturbation bound is '
-         'not proved (validated by the correspondence only).',
-    note='Trusted: Coq kernel; vm_compute for case evaluation; hand-written models tied to the code by the '
-         'correspondence (Qc instance, tolerance 1e-12 relative on the float results; exact on integers/indices); '
-         'oracle contracts: matrix_skeleton returns U V = A, truncate keeps the tensor within its bound and caps '
-         'ranks, lstsq solves the ridge normal equations (residual validated on every recorded call), the d-th '
-         'root of tensors.delta, Generator.normal (draws recorded through an auditing generator passed as seed).',
-    technique='Coq proof (chain invariants over an abstract commutative ring / field) + model/implementation '
-              'correspondence over Qc + independent Fraction/numpy oracle on the implementation')
+    text='TT-ANOVA. Theorems of Properties/C13.v about the models Model/Anova.v, Model/AnovaFunc.v; unbounded in d, '
+         'mode sizes, ranks and sample sets; carrier = any commutative ring (statistics: plus x/b*b=x for b<>0 and '
+         'n+1<>0, i.e. a field of characteristic 0). '
+         'FULL: (C13_anova_stats) the domain of a mode is the sorted list of distinct observed values, f0 is the sample '
+         'mean, f1[k][x]+f0 is the mean of the (never empty) set of samples whose k-th index is x; (C13_anova_stats2) '
+         'the order-2 matrix of the pair k1<k2, stored at pair_num_to_num(k1,k2), holds 0 where no sample has both '
+         'index values and otherwise the conditional mean minus f0 minus the two univariate terms; '
+         '(C13_pair_num_bijection/_sym/_diag) pair_num_to_num numbers the pairs i<j<d bijectively onto '
+         '0..d(d-1)/2-1 in the loop order of build_2/cores_2, is symmetric and asserts on i=j; (C13_calc_spec) calc '
+         'is a dictionary lookup per mode followed by constant + univariate (+ pair) terms; (C13_anova_order1) '
+         'teneva.anova(order=1, noise=0) for every d>=2, r>=2 has the observed mode sizes, every TT-rank equal to r and '
+         'evaluates at every multi-index of the observed domain to f0 + sum_k f1[k][x_k] (= calc); '
+         '(C13_cores_1_shape/_ranks) mode sizes and ranks are the same for every noise level and generator; '
+         '(C13_anova_additive_exact) if the sample rows are all multi-indices of the observed domain, each once in any '
+         'order, and y = c + sum_k g_k(x_k), the order-1 tensor equals c + sum_k g_k(x_k) at every multi-index; '
+         '(C13_anova_bad_order/_bad_rank) order outside {1,2} gives ValueError, r<2 IndexError; '
+         '(C13_second_order_get) _second_order_2_tt denotes A[x_i,x_j] for every skeleton routine with U V = A; '
+         '(C13_add_get, C13_add_many_get) act_two.add adds entries, add_many returns the sum of the entries plus the '
+         'entry changes made by its truncate calls; (C13_cores_pre_get, C13_anova_func_interp, C13_anova_func_denote) '
+         'the coefficient tensor of anova_func(e=None) is c0 at 0, cf_i[p] at (p+1)e_i, zero elsewhere, and its '
+         'interpolant in any basis with B_0=1 (in particular the Chebyshev recurrence) is c0 + sum_i sum_p '
+         'cf_i[p] B_{p+1}(x_i); (C13_anova_func_normal_eqs) the systems given to the solver are the ridge normal '
+         'equations of the centred values in that basis; (C13_coeffs_eq) the fitted constant is the sample mean plus '
+         'the constant terms of the d one-dimensional fits; (C13_anova_func_rounded) with the default e the result is '
+         'truncate applied to that tensor. '
+         'PARTIAL: (C13_anova_order2_partial, C13_anova_order2_pre_partial) the order-2 tensor is truncate(e,r) applied '
+         'to a TT-tensor of the observed shape whose entry is constant + univariate + pair terms plus the entry changes '
+         'of the intermediate truncate calls (none when d<=5: fewer than 15 pairs); the size of the truncation error '
+         'and the rank cap <= r are the contract of truncate (property C02) and are not derived here, they are '
+         'validated numerically (correspondence order2, search). (C13_cores_1_noise_partial, '
+         'C13_cores_1_noise_telescope_partial) with noise the cores equal the noise-free ones on the pattern and '
+         'noise-free + noise*draw elsewhere, and the tensor entry is f0 + sum f1 + noise * (sum of d explicit mixed '
+         'chains); a numeric bound of that sum is not proved (validated numerically by the search only). '
+         'NOT PROVED, validated numerically only: anova_func with rounding (default e) stays within 1e-7 of the '
+         'unrounded tensor; IEEE rounding of all of the above (tolerances of the correspondence).',
+    note='Trusted: Coq kernel; vm_compute for case evaluation; hand-written models tied to the code on every run by the '
+         'correspondence (Qc instance; exact on integers/indices/shapes/errors/noise entries, 1e-12 relative on float '
+         'results); oracle contracts (Section hypotheses): matrix_skeleton returns U V = A; truncate keeps '
+         'well-formedness and shape and changes an entry by err k; lstsq solves N x = rhs (residual validated on every '
+         'recorded call); the (sign, d-th root) pair of tensors.delta satisfies s*w^d = v; Generator.normal (draws '
+         'recorded through an auditing generator passed as seed). Each contract has a non-vacuity Example.',
+    technique='Coq proof (chain invariants, telescoping, grid sums over an abstract commutative ring / field) + '
+              'model/implementation correspondence over Qc + independent Fraction/numpy oracle on the implementation')
 TRUSTED = ['Coq 8.16.1 kernel + vm_compute (case evaluation only)',
            'hand-written models Model/Anova.v, Model/AnovaFunc.v tied to anova.py / anova_func.py / act_many.py '
            'by correspondence on every run',
@@ -35,7 +60,8 @@ TRUSTED = ['Coq 8.16.1 kernel + vm_compute (case evaluation only)',
            'numpy semantics of unique / mean / boolean masks / reshape(order=C) / kron as re-expressed in the model']
 ASSUMPTIONS = ['theorems are about exact arithmetic (ring / field of characteristic 0); IEEE rounding is covered by '
                'the tolerance of the correspondence only',
-               'order 2: the statement is relative to the truncation errors of add_many (property C02)']
+               'order 2: the statement is relative to the truncation errors of add_many (property C02)',
+               'multi-indices of the TT-tensor are positions in the sorted observed domain (np.unique per column)']
 
 HEADER = '''From Coq Require Import List ZArith QArith Qcanon Bool.
 From TV Require Import Num.Ops Lin.Tab Lin.BigSum Lin.Mat TT.Chain Model.ActOne Model.Anova Model.AnovaFunc.
@@ -414,8 +440,35 @@ def corr_order2(R, ctx, tn):
         meta.append((rows, y, r, Y, desc))
         for k, v in (('r', r), ('d', desc['d']), ('kinds', desc['kind'])):
             dist[k][str(v)] = dist[k].get(str(v), 0) + 1
+    # ANOVA.cores(only_near=True): the matrices are taken by a running counter (not by pair number), so for d >= 3
+    # the reshape raises ValueError unless the sizes happen to agree; the model mirrors exactly that
+    near = []
+    for c in range(12 if not ctx['thorough'] else 60):
+        rows, y, desc = gen_samples(rng, nmax=3, dmax=4)
+        shp = [len(set(r_[k] for r_ in rows)) for k in range(desc['d'])]
+        r = lossless_rank(shp) + 1
+        A = tn.ANOVA(np.array(rows, dtype=int), np.array(y, dtype=float), order=2, seed=1)
+        res = C.call_impl(lambda: tn.full(A.cores(r=r, noise=0., only_near=True)))
+        cases.append(f'show_r show_dense (rbind (ANOVA OQc {C.nested(rows, C.zlit)} {qlist(y)} 2%nat) '
+                     f'(fun M => cores OQc M {r}%nat (Q2Qc 0) true (g4 []) skelQ truncQ))')
+        near.append((rows, y, r, res))
+        dist['only_near'] = dist.get('only_near', 0) + 1
     vals = C.run_cases('C13_order2', HEADER, cases, chunk=4)
     bad = []
+    for c, (rows, y, r, res) in enumerate(near):
+        md = vals[len(meta) + c]
+        inp = dict(stream='order2_near', rows=rows, y=y, r=r)
+        R.add_distinct(('order2_near', rows, y, r))
+        scale = max(1.0, max(abs(v) for v in y))
+        if res[0] != 0:
+            ok = md == [[res[0]]]
+        else:
+            full = np.array(res[1], dtype=float)
+            ok = md[0] == [0] and md[1] == list(full.shape) and \
+                all(close(m, x, 1e-8 * scale) for m, x in zip(fr_list(md[2]), full.reshape(-1)))
+        if not ok:
+            bad.append(dict(stream='order2_near', input=inp,
+                            why=f'only_near: model {md[:2]} impl {res[0] if res[0] else "ok"}'))
     for c, (rows, y, r, Y, desc) in enumerate(meta):
         inp = dict(stream='order2', rows=rows, y=y, r=r)
         R.add_distinct(('order2', rows, y, r))
